@@ -74,21 +74,21 @@ def run_noauth_priv(R, variant, priv_pw, engine_id, marker):
     R.mon["priv_without_auth_nothing_in_clear"] += 1
 
 
-def run_case(R, level, variant, op, auth_pw, priv_pw, engine_id, ctx_name, boots, tshift, marker, rotate=None):
+def run_case(R, level, variant, op, auth_pw, priv_pw, engine_id, ctx_name, boots, tshift, marker, rotate=None, ctx_engine=b""):
     hashname = "md5" if "md5" in level else "sha1"
     db = {BASE + (i, 0): ("str", b"value-%d-" % i + hashlib.sha256(b"v%d" % i).digest()[:10]) for i in range(1, 6)}
     agent_clock = env.Clock()
     agent_clock.now = 5_000_000.0
     w = World(
         level, db,
-        agent_kwargs={"engine_id": engine_id, "boots": boots},
+        agent_kwargs={"engine_id": engine_id, "boots": boots, "any_context": bool(ctx_engine)},
         cred_kwargs={"auth_pw": auth_pw, "priv_pw": priv_pw, "variant": variant},
-        client_kwargs={"context_name": ctx_name},
+        client_kwargs={"context_name": ctx_name, "engine_id": ctx_engine},
         clock=agent_clock,
     )
     agent_clock.now += tshift
     case = {"level": level, "variant": variant, "op": op, "auth_pw": "hex:" + auth_pw.hex(), "priv_pw": "hex:" + priv_pw.hex(), "engine_id": "hex:" + engine_id.hex(),
-            "ctx_name": "hex:" + ctx_name.hex(), "boots": boots, "tshift": tshift, "marker": "hex:" + marker.hex()}
+            "ctx_name": "hex:" + ctx_name.hex(), "ctx_engine": "hex:" + ctx_engine.hex(), "boots": boots, "tshift": tshift, "marker": "hex:" + marker.hex()}
     w.seam.budget = 40
     privxf.CALLS.clear()
     c = w.client
@@ -178,8 +178,8 @@ def run_case(R, level, variant, op, auth_pw, priv_pw, engine_id, ctx_name, boots
         except ber.BerError as exc:
             R.violation(case, "plaintext handed to the plug-in is not a scoped PDU: %s" % exc, None)
             return
-        if sp["ctx_engine"] != engine_id or sp["ctx_name"] != ctx_name:
-            R.violation(case, "scoped PDU context (%s, %r), intended (%s, %r)" % (sp["ctx_engine"].hex(), sp["ctx_name"], engine_id.hex(), ctx_name), None)
+        if sp["ctx_engine"] != (ctx_engine or engine_id) or sp["ctx_name"] != ctx_name:
+            R.violation(case, "scoped PDU context (%s, %r), intended (%s, %r)" % (sp["ctx_engine"].hex(), sp["ctx_name"], (ctx_engine or engine_id).hex(), ctx_name), None)
             return
         p0, p1 = sp["pdu"]["span"]
         pdu_plain = call["plaintext"][p0:p1]
@@ -286,7 +286,10 @@ def run(R):
             rotate = (bytes(rng.randint(33, 126) for _ in range(rng.choice((1, 8, 13)))), VARIANTS[(i // 4) % len(VARIANTS)])
         elif i % 4 == 3:
             rotate = (None, variant)  # switch md5 <-> sha1, keep the privacy password
-        run_case(R, level, variant, op, auth_pw, priv_pw, engine_id, ctx_name, boots, tshift, marker, rotate=rotate)
+        # a configured CONTEXT engine id (a proxied device) differs from the agent's
+        # authoritative engine id: keys are localised with the latter
+        ctx_engine = bytes([0x80]) + bytes(rng.getrandbits(8) for _ in range(rng.randint(4, 20))) if i % 5 == 4 else b""
+        run_case(R, level, variant, op, auth_pw, priv_pw, engine_id, ctx_name, boots, tshift, marker, rotate=rotate, ctx_engine=ctx_engine)
         if i % 10 == 7:
             run_noauth_priv(R, variant, priv_pw, engine_id, marker)
 
@@ -300,4 +303,4 @@ def replay(R, v):
     rotate = (h("rotated_priv_pw"), c["variant"]) if "rotated_priv_pw" in c else None
     if rotate is not None and rotate[0] == h("priv_pw"):
         rotate = (None, c["variant"])
-    run_case(R, c["level"], c["variant"], c["op"], h("auth_pw"), h("priv_pw"), h("engine_id"), h("ctx_name"), c["boots"], c["tshift"], h("marker"), rotate=rotate)
+    run_case(R, c["level"], c["variant"], c["op"], h("auth_pw"), h("priv_pw"), h("engine_id"), h("ctx_name"), c["boots"], c["tshift"], h("marker"), rotate=rotate, ctx_engine=bytes.fromhex(c.get("ctx_engine", "hex:")[4:]))
